@@ -35,6 +35,9 @@ def run(ctx):
                 "schedules (start a task / open the next gate, run the loop to quiescence) on InMemoryStateStore "
                 "and SqliteStateStore; distinct key = (store, op kinds, observed segment order)")
     ctx.prove()
+    ctx.partial.append("asyncio.Lock = the FIFO model of Model/StateSchedFifo.v is checked by replay on every run, not "
+                       "proved against asyncio; waiter cancellation and clear() are not covered")
+    ctx.trusted.append("asyncio runs the code between two await points atomically (single-threaded event loop)")
     S.check_pools()
     for nme in ("n",):
         for t in ({}, [], "x", 1, 1.5, True, None, S.DictState()):
@@ -56,9 +59,11 @@ def run(ctx):
             runs["memory"] = K.run_real(lambda: InMemoryStateStore(cls()), init, ops, sched)
             runs["sqlite"] = K.run_real(lambda: env.fresh_sql(cls)[0], init, ops, sched)
             for store in ("memory", "sqlite"):
-                log, fin, outcome = runs[store]
+                log, fin, outcome, fifo = runs[store]
                 exprs.append(K.case_expr(store, locks[store], init, ops, log, fin))
                 meta.append((store, init, ops, sched, log))
+                exprs.append(K.case_expr(store, locks[store], init, ops, log, fin, fifo=fifo))
+                meta.append((store + " (FIFO-lock model, schedule = pokes + hand-overs %r)" % (fifo,), init, ops, sched, log))
                 ctx.count(1, (store, tuple(o[0] + (str(len(o[1])) if o[0] == "edit" else "") for o in ops), tuple(log)))
                 for key, what, detail in judge(store, init, ops, log, fin):
                     fails.append((key, what, detail, store, init, ops, sched, log))
@@ -98,7 +103,9 @@ def run(ctx):
                            ops=S.jsonable(ops), driver_schedule=sched, observed_segment_order=log,
                            coq_expr=exprs[i][:3000],
                            code_meaning="1: under the observed segment order the model does not finish every task "
-                                        "(a task ran while the model has it waiting for the lock); 2: final state differs"),
+                                        "(a task ran while the model has it waiting for the lock); 2: final state differs "
+                                        "(even cases: guard-lock model on the observed segment order; odd cases: FIFO-lock "
+                                        "model on the driver's pokes + hand-overs)"),
                       found_input=False)
     elif bad:
         ctx.notes.append("%d model/implementation disagreements accompany the monitor failures" % len(bad))
@@ -153,7 +160,7 @@ def replay(ctx, path):
         env = S.Env(dbdir)
         try:
             for store, mk in (("memory", lambda: InMemoryStateStore(cls())), ("sqlite", lambda: env.fresh_sql(cls)[0])):
-                log, fin, outcome = K.run_real(mk, init, ops, rec["driver_schedule"])
+                log, fin, outcome, _ = K.run_real(mk, init, ops, rec["driver_schedule"])
                 print("re-execution now on %s: segment order %r final %r" % (store, log, fin))
                 for key, what, _ in judge(store, init, ops, log, fin):
                     ctx.finding(key, "C20 fails on the real code (replay): " + what, dict(kind="replay", source=path))
